@@ -2,6 +2,7 @@
 """keep_seed.py <prop> <variant> <needs> <check-result-line>  -- copies a confirmed seeded change into /verif/seeded/<prop>-<variant>/"""
 import sys, os, shutil, json, glob
 prop, var, needs, result = sys.argv[1:5]
+how = sys.argv[5] if len(sys.argv) > 5 else "tools: /tmp/seed/confirm_seed.sh (demo passes on HEAD, fails with patch; existing tests of the touched crates pass with patch) run by the main session in the scratch worktree"
 src = f"/tmp/seed/{prop}.out/{var}"
 dst = f"/verif/seeded/{prop}-{var}"
 os.makedirs(dst, exist_ok=True)
@@ -9,7 +10,7 @@ for f in glob.glob(src + "/*"):
     b = os.path.basename(f)
     if b in ("patch.diff", "notes.md", "confirm.log") or b.startswith("demo"):
         if os.path.isdir(f):
-            shutil.copytree(f, os.path.join(dst, b), dirs_exist_ok=True)
+            shutil.copytree(f, os.path.join(dst, b), dirs_exist_ok=True, ignore=shutil.ignore_patterns("target", "Cargo.lock", "*.log"))
         elif os.path.getsize(f) < 200_000:
             shutil.copy(f, dst)
 confirm = ""
@@ -23,7 +24,7 @@ meta = {
     "origin": "independent sub-agent given only the property text and a scratch worktree",
     "needs_to_manifest": needs,
     "confirmed": confirm,
-    "how_confirmed": "tools: /tmp/seed/confirm_seed.sh (demo passes on HEAD, fails with patch; existing tests of the touched crates pass with patch) run by the main session in the scratch worktree",
+    "how_confirmed": how,
     "check_result": result,
     "apply": f"git -C /repo apply /verif/seeded/{prop}-{var}/patch.diff ; ./check {prop} ; git -C /repo checkout -- .",
 }
